@@ -54,7 +54,7 @@ checks.update({
    note="'Says why' = a non-empty diagnostic that is not a Go runtime error.", ref="5 C12"),
  "C15": dict(level="exploration", engine="B", technique=TECHB + "; oracle: per-parse equality with the same input parsed alone",
    text="Seeded exploration over histories (init/new + parse of accepted, rejected and lexer-fails-at-i inputs) on every variant and over seeded interleavings of 2-4 -o contexts advanced one yield point at a time (uniform, burst, switch-after-reduce), half with the trace on; every parse must equal the same input parsed alone (verdict, reductions, tokens requested, value, values handed to the lexer, trace).",
-   note=RM + " Exactly one context runs at a time (cooperative scheduler); truly parallel execution under the race detector is not part of the check.", ref="5 C15"),
+   note=RM + " Parts (a)/(b): exactly one context runs at a time (cooperative seeded scheduler), exactly replayable. Part (c): some batches also run the contexts in parallel goroutines in a -race build; a race report in generated code is a violation flagged not exactly replayable.", ref="5 C15"),
  "C16": dict(level="exploration", engine="B", technique=TECHB + "; oracle: the real go build of every output, node load after type erasure",
    text="Seeded exploration: grammars with any printable literal, long rules ($10+), empty rules, comments in actions, every tag shape and layout are generated in all variants with exactly the prologue/epilogue the statement names; every output yaccgo reports success for is compiled by go build, TypeScript outputs are loaded by node.",
    note="TypeScript type correctness cannot be decided here (no tsc).", ref="5 C16"),
